@@ -305,14 +305,21 @@ func (c14) Run(plan interface{}, schedSeed uint64, replay []simrt.Choice, lenien
 				respClient{QueueSize: 100, ReadTimeoutS: p.ReadTimeoutS, DrainFor: drain, ReadSizes: c14ReadSizes(p.ReadSize, len(wire))})
 			pkgSends, errSend := 0, -1
 			for _, e := range again.Out.Log {
-				if e.Op != "send" {
+				if e.Op != "send" && !(e.Op == "select" && strings.Contains(e.Info, "(send)")) {
+					continue
+				}
+				// sends of the reader task: the ones in Conn.ReadFrom itself queue connection errors, all others
+				// (wherever the channel code does them) queue packages
+				if !strings.HasPrefix(e.Task, "go@") {
 					continue
 				}
 				fn := Sites[e.Site].Func
-				if strings.Contains(fn, "tryParsePackage") || strings.Contains(fn, "WritePacket") {
+				if strings.Contains(fn, "(*Conn).ReadFrom") {
+					if errSend < 0 {
+						errSend = pkgSends
+					}
+				} else {
 					pkgSends++
-				} else if strings.Contains(fn, "(*Conn).ReadFrom") && errSend < 0 {
-					errSend = pkgSends
 				}
 			}
 			if errSend >= 0 && errSend < lower {
